@@ -150,13 +150,16 @@ struct NoExtra {
     template<class Idx, class K> void before_query(Ctx &, const Idx &, const K &) {}
     template<class Idx, class K, class R> void after_query(Ctx &, const Idx &, const StaticCase<K> &, const K &, const R &) {}
     template<class Idx> bool nontrivial(const Idx &) { return true; }
+    /// an exception that is a documented, legitimate outcome for this case (not a violation)
+    template<class K> bool tolerate(const std::exception &, const StaticCase<K> &) { return false; }
+    template<class K> const char *exception_region(const StaticCase<K> &) { return ""; }
 };
 
 /// The common body: build, query, judge.  `Which` selects the oracle clauses:
 ///   'P' present keys only (C01), 'L' all queries, lower-bound clause (C02), 'B' both + width for every query
 ///   (variants: C08/C09/C10), 'N' none (C07 / C17: only `extra` and the memory monitor judge)
 template<class K, class Idx, size_t Eps, class Extra>
-void run_static(Ctx &c, StaticCase<K> &sc, char which, Extra &extra, const char *region_of_exception = "") {
+void run_static(Ctx &c, StaticCase<K> &sc, char which, Extra &extra) {
     using Floating = float;
     (void) sizeof(Floating);
     std::vector<K> queries_run;
@@ -168,16 +171,21 @@ void run_static(Ctx &c, StaticCase<K> &sc, char which, Extra &extra, const char 
     c.input_hash = h.h;
     const size_t n = sc.keys.size();
     if (n == 0) return;
+    c.predump();
 
     set_threads(sc.threads);
     Idx *idx = nullptr;
     try {
         idx = new Idx(sc.keys.begin(), sc.keys.end());
     } catch (const std::exception &e) {
+        set_threads(1);
+        if (extra.tolerate(e, sc)) {
+            c.count("documented_rejections");
+            return;
+        }
         c.violation("unexpected_exception",
                     J().str("what", e.what()).str("type", typeid(e).name()).str("during", "construction").num("n", n),
-                    region_of_exception);
-        set_threads(1);
+                    extra.exception_region(sc));
         return;
     }
     set_threads(1);
@@ -261,7 +269,7 @@ void run_static(Ctx &c, StaticCase<K> &sc, char which, Extra &extra, const char 
 
 // ---------------------------------------------------------------------------------------------- PGMIndex specifics
 /// C07: routing trace (hook H2) judged per query; C04(e)/C07: level-size recurrence and height.
-template<size_t EpsRec> struct PgmExtra {
+template<size_t EpsRec> struct PgmExtra : NoExtra {
     bool routing = false; ///< judge H2 records (C07)
     bool levels = false;  ///< judge level sizes (C04 / C07)
     uint64_t records = 0, max_dev = 0, max_cmp = 0;
